@@ -173,7 +173,7 @@ func changeNode(r *gen.RNG, p gen.Profile, v any) any {
 // "" is the void document).
 var confusable = []string{``, `null`, `""`, `[]`, `{}`, `0`, `false`, `true`, `1`, `"0"`, `"null"`, `"false"`, `"[]"`, `"{}"`, `"a"`,
 	`[[]]`, `[""]`, `[{}]`, `[null]`, `[0]`, `[false]`, `[[],[]]`, `["",""]`, `[[],""]`, `["",[]]`, `[[[]]]`, `[[""]]`, `[{},{}]`,
-	`{"":""}`, `{"a":[]}`, `{"a":""}`, `{"a":{}}`, `{"a":null}`, `-0`, `[-0]`, `[0,0]`, `[0,-0]`, `[1,2]`, `[2,1]`, `[1,1,2]`, `[1,2,2]`, `[[1,2],[2,1]]`, `[[2,1],[1,2]]`, `[[1,2]]`}
+	`{"":""}`, `{"a":[]}`, `{"a":""}`, `{"a":{}}`, `{"a":null}`, `{"a":1,"b":2}`, `{"a":2,"b":1}`, `{"a":"b"}`, `{"b":"a"}`, `-0`, `[-0]`, `[0,0]`, `[0,-0]`, `[1,2]`, `[2,1]`, `[1,1,2]`, `[1,2,2]`, `[[1,2],[2,1]]`, `[[2,1],[1,2]]`, `[[1,2]]`}
 
 // wrapText places a JSON text at the root, in an array or under a key.
 func wrapText(t string, how int) (string, bool) {
